@@ -89,19 +89,26 @@ def ext_models(dgram=None, writes=None):
             'recv': recv, 'write': write}
 
 
-def frame_region(mod, k, cls, L, fd):
-    """well-formed input frame k: symbolic identifier / flags / data, concrete length"""
+def frame_region(mod, k, cls, L, fd, concrete_flags=False):
+    """well-formed input frame k: symbolic identifier / flags / data, concrete length.  With concrete_flags the
+    RTR and FD flag bits are fixed, frame-dependent constants (bulk packets: keeps the listener on one path)"""
     r = Region('frame%d' % k, 'sym', 72)
     nid = 11 if cls == 'std' else 29
     idbits = [('A', 'id%d' % k, i) for i in range(nid)] + [0] * (29 - nid)
-    can_id = idbits + [0, ('A', 'rtr%d' % k, 0), 1 if cls == 'ext' else 0]
+    rtr = ('A', 'rtr%d' % k, 0) if not concrete_flags else (k % 3 == 1) * 1
+    can_id = idbits + [0, rtr, 1 if cls == 'ext' else 0]
     for i in range(4):
         chunk = B.norm(can_id[8 * i:8 * i + 8])
         r.mem[(3 - i) if mod.big_endian else i] = chunk
     r.mem[4] = L
+    flags = None
     if fd:
-        r.mem[5] = B.norm([('A', 'brs%d' % k, 0), ('A', 'esi%d' % k, 0), ('A', 'fdf%d' % k, 0), 0, 0, 0, 0, 0])
-    return r, can_id
+        if concrete_flags:
+            flags = [(k >> 0) & 1, (k >> 1) & 1, 1 - ((k >> 2) & 1), 0, 0, 0, 0, 0]
+        else:
+            flags = [('A', 'brs%d' % k, 0), ('A', 'esi%d' % k, 0), ('A', 'fdf%d' % k, 0), 0, 0, 0, 0, 0]
+        r.mem[5] = B.norm(flags)
+    return r, can_id, flags
 
 
 def talker(tm, use_tscf, use_udp, fd, frames):
@@ -115,10 +122,13 @@ def talker(tm, use_tscf, use_udp, fd, frames):
             '@seq_num': gregion(tm, 'seq_num', 7),
             '@udp_seq_num': gregion(tm, 'udp_seq_num', 0x01020304)}
     ids = []
+    flg = []
+    bulk = len(frames) > 3
     for k, (cls, L) in enumerate(frames):
-        r, cid = frame_region(tm, k, cls, L, fd)
+        r, cid, fl = frame_region(tm, k, cls, L, fd, concrete_flags=bulk)
         regs[r.name] = r
         ids.append(cid)
+        flg.append(fl)
     out = {}
     state = {'k': 0}
 
@@ -161,6 +171,7 @@ def talker(tm, use_tscf, use_udp, fd, frames):
     out['cf'] = cf
     out['acf'] = out['len'] - cf - hdr
     out['ids'] = ids
+    out['flags'] = flg
     return out, None
 
 
@@ -281,7 +292,7 @@ def judge(t):
                 if fd:
                     fl = B.to_bits(fr[5], 8)
                     for bit, nm in ((0, 'brs'), (1, 'esi'), (2, 'fdf')):
-                        e = ('A', '%s%d' % (nm, k), 0)
+                        e = tk['flags'][k][bit]
                         st, info = FC.compare_vec((fl[bit],), (e,), 1)
                         if st == 'differs':
                             out.append(('violation', '%s:%s:%s' % (cls0 if cls0 == 'multi' else cls, nm, short(fl[bit])),
@@ -329,6 +340,18 @@ def scenarios(tier):
                         out.append((use_tscf, use_udp, fd, ((cls, L),)))
                 # several frames in one packet
                 out.append((use_tscf, use_udp, fd, (('std', 2), ('ext', 5))))
+                # bulk packets (flags concrete, identifiers and data symbolic): more than 255 ACF octets, exactly 256,
+                # and as many frames as a 1500-octet PDU holds
+                if use_tscf == 1 or tier == 'thorough':
+                    hdr = (24 if use_tscf else 12) + (4 if use_udp else 0)
+                    if fd:
+                        bulks = [[('ext' if k % 2 else 'std', 64) for k in range(5)], [('std', 48)] * 4,
+                                 [('ext' if k % 3 else 'std', 64) for k in range((1500 - hdr) // 80)]]
+                    else:
+                        bulks = [[('ext' if k % 2 else 'std', 8) for k in range(12)], [('std', 0)] * 16,
+                                 [('ext' if k % 3 else 'std', 8) for k in range((1500 - hdr) // 24)]]
+                    for b_ in bulks:
+                        out.append((use_tscf, use_udp, fd, tuple(b_)))
                 if not fd and (tier == 'thorough' or (use_tscf == 1 and use_udp == 0)):
                     # three frames only for classic CAN: with FD flags the listener's path count (2^4 per frame) explodes
                     out.append((use_tscf, use_udp, fd, (('ext', 8), ('std', 0), ('std', 3))))
